@@ -997,6 +997,9 @@ C16_RULES = [
     ('pi-opening', 'C labeled c1 C labeled c2 double bond to c1', [('dec', 'c1', 'c2'), ('rad+', 'c1'), ('rad+', 'c2')]),
     ('ring-closure', 'C. labeled c1 C labeled c2 single bond to c1 C. labeled c3 single bond to c2', [('form', 'c1', 'c3'), ('rad-', 'c1'), ('rad-', 'c3')]),
     ('H-shift', 'C. labeled c1 C labeled c2 single bond to c1 H labeled h1 single bond to c2', [('break', 'c2', 'h1'), ('form', 'c1', 'h1'), ('rad-', 'c1'), ('rad+', 'c2')]),
+    # patterns that leave the bond order open: the same rule object meets single, double and triple bonds, in one molecule and across molecules
+    ('step-up-open', 'C. labeled c1 C. labeled c2 any bond to c1', [('inc', 'c1', 'c2'), ('rad-', 'c1'), ('rad-', 'c2')]),
+    ('step-down-open', 'C labeled c1 C labeled c2 strong bond to c1', [('dec', 'c1', 'c2'), ('rad+', 'c1'), ('rad+', 'c2')]),
 ]
 
 
@@ -1014,7 +1017,8 @@ def c16_rewriter(tier, seed):
     from pgradd.RINGParser.Reader import Read
     from pgradd.Error import RINGReaderError
     rnd = random.Random(seed)
-    smiles = ['C', 'CC', 'CCC', 'C=C', 'CCO', 'CO', 'C=CC', '[CH2][CH2]', '[CH2]C[CH2]', '[CH2]C', '[CH2]CC', 'C[CH][CH2]', 'OO', 'C1CC1']
+    smiles = ['C', 'CC', 'CCC', 'C=C', 'CCO', 'CO', 'C=CC', '[CH2][CH2]', '[CH2]C[CH2]', '[CH2]C', '[CH2]CC', 'C[CH][CH2]', 'OO', 'C1CC1',
+              '[CH]=[CH]', '[CH2][CH]=[CH][CH2]', 'C#C', 'C=CC#C', '[CH2][CH][C]=[CH]']
     viol, n, distinct, samples = [], 0, 0, []
     BT = Chem.BondType
     order = [BT.SINGLE, BT.DOUBLE, BT.TRIPLE, BT.QUADRUPLE]
@@ -1092,6 +1096,18 @@ def c16_rewriter(tier, seed):
                     viol.append({'id': 'unbalanced-%s-%d' % (name, i), 'input': t2, 'observed': type(ex).__name__, 'expected': 'RINGReaderError (electron balance)'})
     # unbalanced rules whose per-atom imbalances CANCEL in the total (what one labelled atom gains another loses): still rejected
     frag = 'C labeled c1  C labeled c2 single bond to c1  H labeled h1 single bond to c2'
+    # an untyped 'break bond' means a single bond: on a double- or triple-bond pattern one radical per end does not balance it
+    for bk in ('double', 'triple'):
+        n += 1
+        t2 = 'rule x{ reactant r1{ C labeled c1 C labeled c2 %s bond to c1 } break bond (c1, c2) increase number of radical (c1) increase number of radical (c2) }' % bk
+        try:
+            Read(t2)
+            viol.append({'id': 'untyped-break-of-%s-bond' % bk, 'input': t2, 'observed': 'accepted', 'expected': 'RINGReaderError (bond does not match / electrons unbalanced)',
+                         'script': "from pgradd.RINGParser.Reader import Read\nRead(%r)   # expected RINGReaderError\n" % t2})
+        except RINGReaderError:
+            pass
+        except Exception as ex:    # noqa
+            viol.append({'id': 'untyped-break-of-%s-bond' % bk, 'input': t2, 'observed': type(ex).__name__, 'expected': 'RINGReaderError'})
     for name_, edits_ in (('move-H', 'break bond (c2, h1) form bond (c1, h1)'),
                           ('radical-shift', 'increase number of radical (c1) decrease number of radical (c2)'),
                           ('wrong-atom', 'break bond (c2, h1) increase number of radical (c1) increase number of radical (h1)'),
